@@ -1,36 +1,30 @@
 #!/bin/bash
 # Run every seeded defect (/verif/seeded/*/patch.diff) against the quick check
-# of the property it breaks; print one line each. A patch that no longer applies
-# to /repo's HEAD (because a later fix changed the code it modified) is applied
-# in a scratch worktree at the commit it was written for (meta.json base_commit)
+# of the property it breaks; print one line each. /repo itself is never touched:
+# the patch is applied in a scratch worktree (at /repo's HEAD, or - when a later
+# fix changed the code the patch modifies - at the commit it was written for)
 # and the check is pointed there with SIM_REPO.
 # usage: tools/seeded.sh [name-filter] [scale]
 cd /verif || exit 2
 filter=${1:-}; scale=${2:-1}
 ./check setup > /dev/null || exit 2
-git -C /repo diff --quiet || { echo "repo dirty"; exit 2; }
 for d in seeded/*/; do
   name=$(basename $d)
   [[ -n "$filter" && "$name" != *$filter* ]] && continue
   prop=$(python3 -c "import json;print(json.load(open('$d/meta.json'))['property'])")
-  base=$(python3 -c "import json;print(json.load(open('$d/meta.json')).get('base_commit',''))")
   start=$(date +%s)
-  if git -C /repo apply --check /verif/$d/patch.diff 2>/dev/null; then
-    git -C /repo apply /verif/$d/patch.diff
-    ./bin/simcheck run --prop $prop --tier quick --scale $scale --nomin > /tmp/seeded-$name.log 2>&1
-    code=$?
-    git -C /repo checkout -q -- . ; git -C /repo clean -fdq
-    where=HEAD
-  else
-    wt=/tmp/seedwt-$$
-    git -C /repo worktree add -q $wt $base || { echo "$name: cannot make worktree at $base"; continue; }
-    git -C $wt apply /verif/$d/patch.diff || { echo "$name: patch does not apply at $base"; git -C /repo worktree remove --force $wt; continue; }
-    SIM_REPO=$wt ./bin/simcheck run --prop $prop --tier quick --scale $scale --nomin > /tmp/seeded-$name.log 2>&1
-    code=$?
+  wt=/tmp/seedwt-$$-$name
+  where=""
+  for base in HEAD 864492d 9004744; do
+    git -C /repo worktree add -q --detach $wt $base 2>/dev/null || continue
+    if git -C $wt apply /verif/$d/patch.diff 2>/dev/null; then where=$base; break; fi
     git -C /repo worktree remove --force $wt
-    where="base $base"
-  fi
+  done
+  if [ -z "$where" ]; then echo "$name: patch applies to no known commit"; continue; fi
+  SIM_REPO=$wt ./bin/simcheck run --prop $prop --tier quick --scale $scale --nomin --builddir /tmp/seedbuild-$$ > /tmp/seeded-$name.log 2>&1
+  code=$?
+  git -C /repo worktree remove --force $wt
   v=$(grep -a -m1 "^violation" /tmp/seeded-$name.log | cut -c1-160)
-  echo "$name prop=$prop ($where) exit=$code $(( $(date +%s) - start ))s :: $v"
+  echo "$name prop=$prop (at $where) exit=$code $(( $(date +%s) - start ))s :: $v"
 done
-./bin/simcheck build > /dev/null   # leave /verif/build/ergo built from /repo again
+rm -rf /tmp/seedbuild-$$
